@@ -2,9 +2,11 @@ package main
 
 import (
 	"bytes"
+	"errors"
 	"fmt"
 	"strings"
 
+	"github.com/boltdb/bolt"
 	"github.com/skycoin/skycoin/src/cipher"
 	"github.com/skycoin/skycoin/src/coin"
 	"github.com/skycoin/skycoin/src/transaction"
@@ -21,6 +23,8 @@ type op struct {
 	Kind string // inject-foreign | inject-user | block | publish | refresh | remove-invalid | reopen | rebuild-indexes
 	Arg  string
 }
+
+var errInjectedWrite = errors.New("verif: injected page-write failure")
 
 func (o op) String() string {
 	if o.Arg == "" {
@@ -46,6 +50,11 @@ func (n *node) ops(focus string) []op {
 	}
 	if !n.W.Publisher || n.W.OfferBlocks {
 		for _, c := range n.blocks() {
+			if strings.HasPrefix(c.Name, "valid[") || strings.HasPrefix(c.Name, "valid2[") {
+				out = append(out, op{"block-after-failed-write", c.Name}) // same successor state as block(name): no new states
+			}
+		}
+		for _, c := range n.blocks() {
 			out = append(out, op{"block", c.Name})
 		}
 	}
@@ -68,6 +77,9 @@ func inFocus(prop string, o op) bool {
 	hdr := o.Kind == "block" && (strings.HasPrefix(o.Arg, "hdr:") || strings.HasPrefix(o.Arg, "valid2:") || o.Arg == "signed-by-intruder" || o.Arg == "null-signature" ||
 		o.Arg == "sig-recid-flipped" || o.Arg == "genesis-again" || o.Arg == "head-again" || strings.Contains(o.Arg, "header-kept") || o.Arg == "no-transactions")
 	badBody := o.Kind == "block" && !hdr && !strings.HasPrefix(o.Arg, "valid")
+	if o.Kind == "block-after-failed-write" {
+		return prop == "C04" // fault injection into the commit: the "appended only if…, unchanged otherwise" clause of C04
+	}
 	switch prop {
 	case "C01", "C02", "C03":
 		return !hdr && o.Kind != "inject-user" && o.Kind != "rebuild-indexes"
@@ -210,7 +222,7 @@ func (n *node) apply1(o op, check bool, fail failer) string {
 		}
 		return "inject:" + orOK(want) + ":" + reason
 
-	case "block":
+	case "block", "block-after-failed-write":
 		var sb *coin.SignedBlock
 		for _, c := range n.blocks() {
 			if c.Name == o.Arg {
@@ -226,6 +238,32 @@ func (n *node) apply1(o op, check bool, fail failer) string {
 			keyBefore = n.key()
 		}
 		var err error
+		if o.Kind == "block-after-failed-write" {
+			// fault injection: the commit of this block's execution fails at its first page write (disk error / disk full) - the
+			// call must return an error and change nothing, and the node must then treat the SAME block exactly as if the failed
+			// attempt had never happened (nothing computed during the rolled-back attempt may survive in memory)
+			before := n.key()
+			fails := 0
+			bolt.VerifFailWrite = func(string) error { fails++; return errInjectedWrite }
+			var ferr error
+			pan, msg := catch(func() { ferr = n.V.ExecuteSignedBlock(*sb) })
+			bolt.VerifFailWrite = nil
+			if pan {
+				fail("C04,C08", "block:panic:commit-write-fails", "%s: panic %s", o, msg)
+				return "panic"
+			}
+			if fails > 0 {
+				fail("AUX", "commit-write-failure-injected", "")
+				if ferr == nil {
+					fail("C04,C08", "block:failed-commit-reported-as-success", "%s: a page write of the commit failed but ExecuteSignedBlock returned nil", o)
+				}
+				if after := n.key(); after != before {
+					fail("C04,C08", "block:failed-commit-changed-the-database", "%s: a page write of the commit failed (%v) but the stored state changed", o, ferr)
+					n.M = nil
+					return "failed-commit-changed-state"
+				}
+			}
+		}
 		pan, msg := catch(func() { err = n.V.ExecuteSignedBlock(*sb) })
 		if pan {
 			fail("C04", "block:panic", "%s: panic %s", o, msg)
